@@ -5,10 +5,10 @@ CONSTANTS
   RefsAtIgnoresBlock = FALSE
   KeepStaleRad = FALSE
   SkipUnloaded = FALSE
-  Family = {"focus", "refsat", "scope"}
+  Family = {"delegates", "blockdel"}
   Junks = {"none", "extra"}
   DelCount = {1, 2, 3}
-  LocalChoices = {0, 1}
+  LocalChoices = {0, 1, 2, 3}
 INIT MCInit
 NEXT Next
 INVARIANTS TypeOK InitIsLegal C01_Match C01_Untouched BlockedUntouched OutOfScopeUntouched NoRewindAny C02_Gate C02_FewImpliesFailure C02_FailedUnchanged ErrorBeforeApplyUnchanged EmitInv
